@@ -35,6 +35,7 @@ import (
 func init() {
 	verifKinds["c19.expand"] = verifC19Expand
 	verifKinds["c19.sharp"] = verifC19Sharp
+	verifKinds["c19.wiring"] = verifC19Wiring
 }
 
 // ---------------------------------------------------------------------------
@@ -665,4 +666,173 @@ func verifC19WireSize(compress conformancev1.Compression, msg []byte) (int64, er
 		return 0, err
 	}
 	return int64(buf.Len()), nil
+}
+
+// ---------------------------------------------------------------------------
+// c19.wiring: the runner's own path, end to end
+// ---------------------------------------------------------------------------
+
+type verifC19Discard struct{}
+
+func (verifC19Discard) Printf(string, ...any)               {}
+func (verifC19Discard) PrefixPrintf(string, string, ...any) {}
+
+// (offs) httpVersion protocol compression streamType -> ((limit size accepted)...)
+//
+// A suite file shaped like the shipped server_message_size.yaml, with one test case per offset,
+// goes through the code the runner uses: parseTestSuites (which calls expandRequestData),
+// newTestCaseLibrary (sets the client's limit, computes the expected response), then
+// runTestCasesForServer, which starts the reference server with the limit it hands out itself
+// and feeds the reference client.  A case with offset <= 0 expects the normal response, one with
+// offset > 0 expects resource_exhausted (as the shipped suite states it); `accepted` is that
+// expectation when the runner's verdict is "passed" and its negation otherwise.
+func verifC19Wiring(args []vsx) vsx {
+	if len(args) != 5 || args[0].k != 'l' || len(args[0].l) == 0 || len(args[0].l) > 16 {
+		return vErr("bad-case")
+	}
+	for _, a := range args[1:] {
+		if a.k != 'i' || a.g != nil {
+			return vErr("bad-case")
+		}
+	}
+	offs := make([]int64, len(args[0].l))
+	for i, o := range args[0].l {
+		if o.k != 'i' || o.g != nil || o.i < -4096 || o.i > 4096 {
+			return vErr("bad-case")
+		}
+		offs[i] = o.i
+	}
+	httpVersion := conformancev1.HTTPVersion(args[1].i)
+	protocol := conformancev1.Protocol(args[2].i)
+	compress := conformancev1.Compression(args[3].i)
+	streamType := conformancev1.StreamType(args[4].i)
+	switch {
+	case httpVersion != conformancev1.HTTPVersion_HTTP_VERSION_1 && httpVersion != conformancev1.HTTPVersion_HTTP_VERSION_2,
+		protocol < conformancev1.Protocol_PROTOCOL_CONNECT || protocol > conformancev1.Protocol_PROTOCOL_GRPC_WEB,
+		compress < conformancev1.Compression_COMPRESSION_IDENTITY || compress > conformancev1.Compression_COMPRESSION_SNAPPY,
+		streamType < conformancev1.StreamType_STREAM_TYPE_UNARY || streamType > conformancev1.StreamType_STREAM_TYPE_SERVER_STREAM,
+		httpVersion == conformancev1.HTTPVersion_HTTP_VERSION_1 && protocol == conformancev1.Protocol_PROTOCOL_GRPC:
+		return vErr("bad-case")
+	}
+	verifC19.mu.Lock()
+	defer verifC19.mu.Unlock()
+
+	var yaml strings.Builder
+	fmt.Fprintf(&yaml, "name: Verif Message Size\nmode: TEST_MODE_SERVER\nreliesOnMessageReceiveLimit: true\n"+
+		"relevantProtocols: [%s]\nrelevantHttpVersions: [%s]\nrelevantCodecs: [CODEC_PROTO]\nrelevantCompressions: [%s]\ntestCases:\n",
+		protocol, httpVersion, compress)
+	for i, off := range offs {
+		fmt.Fprintf(&yaml, "- request:\n    testName: case-%02d\n    streamType: %s\n", i, streamType)
+		switch streamType {
+		case conformancev1.StreamType_STREAM_TYPE_UNARY:
+			yaml.WriteString("    requestMessages:\n" +
+				"    - \"@type\": type.googleapis.com/connectrpc.conformance.v1.UnaryRequest\n" +
+				"      responseDefinition:\n        responseData: \"dGVzdCByZXNwb25zZQ==\"\n" +
+				fmt.Sprintf("  expandRequests:\n    - sizeRelativeToLimit: %d\n", off))
+		case conformancev1.StreamType_STREAM_TYPE_CLIENT_STREAM:
+			if off > 0 {
+				yaml.WriteString("    requestDelayMs: 50\n")
+			}
+			yaml.WriteString("    requestMessages:\n" +
+				"    - \"@type\": type.googleapis.com/connectrpc.conformance.v1.ClientStreamRequest\n" +
+				"      responseDefinition:\n        responseData: \"dGVzdCByZXNwb25zZQ==\"\n" +
+				"    - \"@type\": type.googleapis.com/connectrpc.conformance.v1.ClientStreamRequest\n" +
+				"      requestData: \"dGVzdCByZXNwb25zZQ==\"\n" +
+				fmt.Sprintf("  expandRequests:\n    - sizeRelativeToLimit: 0\n    - sizeRelativeToLimit: %d\n", off))
+		default:
+			yaml.WriteString("    requestMessages:\n" +
+				"    - \"@type\": type.googleapis.com/connectrpc.conformance.v1.ServerStreamRequest\n" +
+				"      responseDefinition:\n        responseData:\n          - \"dGVzdCByZXNwb25zZQ==\"\n          - \"dGVzdCByZXNwb25zZQ==\"\n" +
+				fmt.Sprintf("  expandRequests:\n    - sizeRelativeToLimit: %d\n", off))
+		}
+		if off > 0 {
+			yaml.WriteString("  expectedResponse:\n    error:\n      code: CODE_RESOURCE_EXHAUSTED\n")
+			if streamType == conformancev1.StreamType_STREAM_TYPE_CLIENT_STREAM {
+				yaml.WriteString("    numUnsentRequests: 1\n")
+			}
+		}
+	}
+	suites, err := parseTestSuites(map[string][]byte{"verif_message_size.yaml": []byte(yaml.String())})
+	if err != nil {
+		if os.Getenv("VERIF_DEBUG") != "" {
+			fmt.Fprintf(os.Stderr, "verif: parseTestSuites: %v\n%s\n", err, yaml.String())
+		}
+		if strings.Contains(err.Error(), "can't pad to exactly") {
+			return vErr("unreachable")
+		}
+		return vErr("suite-rejected")
+	}
+	lib, err := newTestCaseLibrary(suites, []configCase{{
+		Version: httpVersion, Protocol: protocol, Codec: conformancev1.Codec_CODEC_PROTO, Compression: compress,
+		StreamType: streamType, UseMessageReceiveLimit: true,
+	}}, conformancev1.TestSuite_TEST_MODE_SERVER)
+	if err != nil {
+		if os.Getenv("VERIF_DEBUG") != "" {
+			fmt.Fprintf(os.Stderr, "verif: newTestCaseLibrary: %v\n", err)
+		}
+		return vErr("library-rejected")
+	}
+	if len(lib.testCases) != len(offs) || len(lib.casesByServer) != 1 {
+		return vErr("library-shape")
+	}
+	ctx, cancel := context.WithCancel(context.Background()) // no deadline: the in-process client would forward it as an RPC timeout
+	defer cancel()
+	client, err := runClient(ctx, runInProcess([]string{"reference-client", "-p", "4"},
+		func(ctx context.Context, args []string, in io.ReadCloser, out, errW io.WriteCloser) error {
+			return referenceclient.RunInReferenceMode(ctx, args, in, out, errW, nil)
+		}))
+	if err != nil {
+		return vErr("client-start")
+	}
+	defer client.stop()
+	results := newResults(len(offs), &testTrie{}, &testTrie{}, nil)
+	startServer := runInProcess([]string{"reference-server", "-port", "0", "-bind", "127.0.0.1"},
+		func(ctx context.Context, args []string, in io.ReadCloser, out, errW io.WriteCloser) error {
+			return referenceserver.RunInReferenceMode(ctx, args, in, out, errW, nil)
+		})
+	for svrInstance, testCases := range lib.casesByServer {
+		runTestCasesForServer(ctx, true, true, svrInstance, testCases, nil, nil, startServer,
+			verifC19Discard{}, verifC19Discard{}, results, client, nil, false)
+	}
+	client.closeSend()
+	if err := client.waitForResponses(); err != nil {
+		return vErr("client-io")
+	}
+	results.mu.Lock()
+	defer results.mu.Unlock()
+	results.processSidebandInfoLocked()
+	out := make([]vsx, len(offs))
+	for name, testCase := range lib.testCases {
+		var idx int
+		if _, err := fmt.Sscanf(name[strings.LastIndex(name, "case-"):], "case-%02d", &idx); err != nil || idx < 0 || idx >= len(offs) || out[idx].k != 0 {
+			return vErr("library-names")
+		}
+		outcome, ok := results.outcomes[name]
+		if !ok {
+			return vErr("no-outcome")
+		}
+		if outcome.setupError {
+			if os.Getenv("VERIF_DEBUG") != "" {
+				fmt.Fprintf(os.Stderr, "verif: %s: setup error: %v\n", name, outcome.actualFailure)
+			}
+			return vErr("setup-error")
+		}
+		if testCase.Request.MessageReceiveLimit != uint32(clientReceiveLimit) {
+			return vErr("client-limit-not-set")
+		}
+		sizedIdx := 0
+		if streamType == conformancev1.StreamType_STREAM_TYPE_CLIENT_STREAM {
+			sizedIdx = 1
+		}
+		size := int64(len(testCase.Request.RequestMessages[sizedIdx].Value))
+		accepted := offs[idx] <= 0
+		if outcome.actualFailure != nil {
+			if os.Getenv("VERIF_DEBUG") != "" {
+				fmt.Fprintf(os.Stderr, "verif: %s: %v\n", name, outcome.actualFailure)
+			}
+			accepted = !accepted
+		}
+		out[idx] = vL(vI(int64(serverReceiveLimit)), vI(size), vBool(accepted))
+	}
+	return vL(out...)
 }
